@@ -37,6 +37,7 @@ type backendBehavior struct {
 }
 
 type backendModel struct {
+	index int
 	name  string
 	addr  net.Addr
 	w     *classicWorld
@@ -83,7 +84,7 @@ func (b *backendModel) Dial(ctx context.Context, p proxy.Player) (net.Conn, erro
 		beh = b.NextBeh(n)
 	}
 	w.r.Op("dial:" + b.name)
-	w.dialLog = append(w.dialLog, dialRec{Seq: w.nextSeq(), Server: b.name, Player: p.Username()})
+	w.dialLog = append(w.dialLog, dialRec{Seq: w.nextSeq(), Server: b.name, Player: p.Username(), By: simrt.CurrentGID()})
 	if beh.DialRefuse {
 		w.r.Fault("dial_refused")
 		return nil, simnet.ErrRefused
@@ -282,7 +283,7 @@ func (bc *backendConn) run() {
 	// Gate switches the backend connection's session handler a few instructions after it
 	// wrote the FinishedUpdate acknowledgement (window documented in DESIGN.md §7).
 	simrt.Sleep(time.Millisecond, "backend.latency")
-	if err := bc.send(joinGameFor(w.prot, 100+bc.idx)); err != nil {
+	if err := bc.send(joinGameFor(w.prot, bc.EntityID())); err != nil {
 		bc.noteEOF()
 		return
 	}
@@ -320,6 +321,12 @@ func (bc *backendConn) playReader() {
 		}
 	}
 }
+
+// EntityID is unique per backend connection in a world.
+func (bc *backendConn) EntityID() int { return 1000*(1+bc.b.index) + bc.idx }
+
+// Live reports whether the connection is joined and has not seen EOF.
+func (bc *backendConn) Live() bool { return bc.Joined && !bc.EOFSeen && bc.Phase == "play" }
 
 // Kick disconnects the player from this backend while in play.
 func (bc *backendConn) Kick(reason string) {
